@@ -2,6 +2,7 @@ SPECIFICATION TSpec
 CONSTANTS
   MaxBytes = 1
   Cuts = {"origin", "transit"}
+  AcceptLeavesDeadline = FALSE
   MaxNotices = 1000000
   NoticeEndsStream = FALSE
   OriginErrorFatal = TRUE
@@ -9,5 +10,6 @@ INVARIANTS
   Prefix
   EOFOnlyAfterAll
   NoSpontaneousClose
+  NoReadErrorWhileUp
   Done
 CHECK_DEADLOCK FALSE
